@@ -185,38 +185,157 @@ def run_ensembles(ctx, count, np_, steps):
                         last=[float(parse_c(t)) for t in r["stat"][-1][1:]]))
 
 
+# ------------------------------------------------------------------------------------ time-dependent RF map
+
+def oracle_dyn(ctx, c, r):
+    """`rfm->apply(); rfm->applyToAll(ps)` with a DynamicRFKickMap whose offsets change every step, then the drift: the
+    centre of charge of the blob put on particle 0 (renewed every c.renew steps) is particle 0 after every map (linear RF kick
+    and linear drift are affine, interpolation with >= 3 points reproduces first moments) as long as the blob's support - at most
+    two cells wider per map on either side of the particle - is inside the grid; every particle stays inside."""
+    n = c.n
+    evaluated = 0
+    alive = True
+    maps = 0
+    for k in range(c.steps):
+        if c.renew > 0 and k > 0 and k % c.renew == 0:
+            alive, maps = True, 0          # the harness has put a fresh blob on particle 0
+            px, py = r["pre"][k][0]
+            if isinstance(px, str) or isinstance(py, str) or not (4 <= px <= n - 5 and 4 <= py <= n - 5):
+                alive = False
+        for stage, posl, moml in (("rf", r["rfpos"][k], r["rfmom"][k]), ("drift", r["pos"][k], r["mom"][k])):
+            maps += 1
+            for pi, (x, y) in enumerate(posl):
+                if isinstance(x, str) or isinstance(y, str) or not (0 <= x <= n - 1 and 0 <= y <= n - 1):
+                    ctx.violation("impl-oracle", "tracked particle leaves the grid under the time-dependent RF map / drift (step %d, %s)" % (k, stage),
+                                  case=dict(c.replay(), step=k, particle=pi), observed=[str(x), str(y)], expected="0 <= x,y <= %d" % (n - 1),
+                                  sig=dict(kind="dyn", clause="inside"))
+                    return False
+            px, py = posl[0]
+            margin = 4 + 2 * ((maps + 1) // 2)   # support: the hat's two cells + two cells per map along that map's axis (one kick and one drift per step), and slack
+            if not (margin <= px <= n - 1 - margin and margin <= py <= n - 1 - margin):
+                alive = False
+            if not alive:
+                continue
+            s0, sx, sy = moml
+            if any(isinstance(v, str) for v in moml) or s0 == 0:
+                ctx.violation("impl-oracle", "blob lost or not finite under the time-dependent RF map", case=dict(c.replay(), step=k),
+                              observed=[str(v) for v in moml], sig=dict(kind="dyn", clause="finite"))
+                return False
+            cx, cy = sx / s0, sy / s0
+            # float cells and float particle: a few roundings at the coordinate scale n per map applied so far
+            tol = 8 * U * n * (maps + 1)
+            if abs(cx - px) > tol or abs(cy - py) > tol:
+                nxt = ""
+                if k + 1 < c.steps and k < len(r["offs"]) - 1:
+                    i0 = int(px)
+                    nxt = " (this step's offset at the particle's column: %s, the next step's: %s)" % (
+                        float(r["offs"][k][i0]), float(r["offs"][k + 1][i0]))
+                ctx.violation("impl-oracle", "the tracked particle does not follow the centre of charge of the blob it started in under the "
+                              "time-dependent RF map: after step %d (%s) they differ%s" % (k, stage, nxt),
+                              case=dict(c.replay(), step=k, stage=stage),
+                              observed=dict(centroid=[float(cx), float(cy)], particle=[float(px), float(py)]),
+                              expected="equal within %g cells" % float(tol), sig=dict(kind="dyn", clause="centroid", stage=stage))
+                return False
+            evaluated += 1
+    ctx.case_done(("dyn", c.cid), evaluated >= 8)
+    return True
+
+
+def run_dyn_stage(ctx, count, dis):
+    cases = tc.gen_dyn(ctx, count)
+    res = tc.run_dyn(ctx, cases)
+    for c in cases:
+        d = tc.compare_dyn(c, res[c.cid])
+        if d:
+            dis.append(dict(case=c.replay(), detail=d[:3], sig=dict(kind="dyn", stage="correspondence", what=d[0]["what"])))
+        ctx.evaluations += 1
+        oracle_dyn(ctx, c, res[c.cid])
+    ctx.sample(dict(kind="dyn", id=cases[0].cid, n=cases[0].n, steps=cases[0].steps, modampl=cases[0].modampl, phasespread=cases[0].phasespread,
+                    queue_head=[[float(a), float(b)] for a, b in res[cases[0].cid]["queue"][:3]]))
+
+
+def run_load_stage(ctx, count, dis):
+    """main()'s loading of the tracking file through PhaseSpace::x / y: generated definitions against the implementation, and
+    the oracle: whatever the file holds, the particle starts inside [0, n-1]^2"""
+    for s in tc.run_load(ctx, count):
+        n = s["n"]
+        case = dict(kind="load", n=n, axes=[fhex(a) for a in s["axes"]], points=[[fhex(f32(q)), fhex(f32(p))] for q, p in s["pts"]])
+        bad = None
+        for j, (x, y) in enumerate(s["ipos"]):
+            if isinstance(x, str) or isinstance(y, str) or not (0 <= x <= n - 1 and 0 <= y <= n - 1):
+                bad = (j, x, y)
+                break
+        if bad:
+            ctx.violation("impl-oracle", "a coordinate of the tracking file is loaded to a position outside the grid", case=case,
+                          observed=dict(point=bad[0], pos=[str(bad[1]), str(bad[2])]), expected="0 <= x,y <= %d" % (n - 1),
+                          sig=dict(kind="load", clause="inside"))
+        if "mpos" not in s:
+            dis.append(dict(case=case, detail="model output missing", sig=dict(kind="load", stage="correspondence")))
+        else:
+            d0, d1 = s["impl_axes"][1], s["impl_axes"][3]
+            for j, ((ix, iy), (mx, my)) in enumerate(zip(s["ipos"], s["mpos"])):
+                if isinstance(mx, str) or isinstance(my, str) or isinstance(ix, str) or isinstance(iy, str):
+                    dis.append(dict(case=case, detail=dict(what="load-non-finite", point=j, impl=[str(ix), str(iy)], model=[str(mx), str(my)]),
+                                    sig=dict(kind="load", stage="correspondence")))
+                    break
+                q, p = Fraction(f32(s["pts"][j][0])), Fraction(f32(s["pts"][j][1]))
+                # (c - min)/delta: one subtraction and one division in float
+                tx = Fraction(0) if s["exact"] else 4 * U * (abs(q) + abs(s["impl_axes"][0])) / abs(d0) + 4 * U * n
+                ty = Fraction(0) if s["exact"] else 4 * U * (abs(p) + abs(s["impl_axes"][2])) / abs(d1) + 4 * U * n
+                if abs(ix - mx) > tx or abs(iy - my) > ty:
+                    dis.append(dict(case=case, detail=dict(what="load-position", point=j, impl=[str(ix), str(iy)], model=[str(mx), str(my)]),
+                                    sig=dict(kind="load", stage="correspondence")))
+                    break
+        ctx.case_done(("load", s["id"]), True)
+        ctx.count("load:" + ("exact" if s["exact"] else "tol"))
+
+
+
 # ------------------------------------------------------------------------------------ program level
 
-def run_program(ctx, count):
+def run_program(ctx, count, mode="std"):
     """inovesa itself with a tracking file holding edge particles: every record of /Particles/data must lie
     within the axes; the coordinates are looked up in the axis arrays (HDF5File::appendTracks: q(floor x), p(floor y)), so
     every recorded position must be a value of /Info/AxisValues_z and every recorded energy a value of
     /Info/AxisValues_E, and the first record (written before any map is applied) must be the cell the coordinate given
-    in the tracking file falls into.  Half of the runs shift the two axes differently (--PhaseSpaceShiftX/Y)."""
+    in the tracking file falls into.  Half of the runs shift the two axes differently (--PhaseSpaceShiftX/Y).
+    mode "fp2": tracking model 2 on a grid of +-20 sigma - the Gaussian's tails underflow to subnormal numbers and to exact
+    zeros in float, the outermost rows of the stencil table are zeroed - with particles on the outermost energy rows: the
+    division `offset /= charge` meets 0/0 and x/0 there, and every recorded coordinate must still be finite and on the axes."""
     rng = ctx.rng
     tg = ctx.build(harness=("impl_track", "h5cat"), want_binary=True)
     env = vp_build.xdg_env()
     for i in range(count):
         n = rng.choice([32, 48, 64])
-        fptrack = i % 4
+        fptrack = i % 4 if mode == "std" else 2
         steps = rng.choice([20, 40])
         shx, shy = (0.0, 0.0)
-        if i % 2 == 1:
+        half = 6.0 if mode == "std" else 20.0
+        if i % 2 == 1 and mode == "std":
             shx, shy = rng.choice([(0.0, 3.0), (2.0, -1.0), (-2.5, 1.0), (1.5, 0.0), (3.0, 0.5)])
         with tempfile.TemporaryDirectory(prefix="c15-") as td:
             tf = os.path.join(td, "track.txt")
-            pts = [(-5.99, -5.99), (5.99, 5.99), (-7.0, 7.0), (0.0, 0.0), (6.0, -6.0), (0.1, 5.9), (-5.9, 0.2)]
-            pts += [(rng.uniform(-6, 6), rng.uniform(-6, 6)) for _ in range(6)]
+            if mode == "std":
+                pts = [(-5.99, -5.99), (5.99, 5.99), (-7.0, 7.0), (0.0, 0.0), (6.0, -6.0), (0.1, 5.9), (-5.9, 0.2)]
+                pts += [(rng.uniform(-6, 6), rng.uniform(-6, 6)) for _ in range(6)]
+            else:
+                dl = 2 * half / (n - 1)
+                # outermost energy rows (0, 1, n-2, n-1), rows where the density is subnormal (|p| ~ 14..14.6), the core
+                pts = [(0.0, -half), (0.0, half), (1.0, half - 0.5 * dl), (-1.0, -half + 0.5 * dl), (0.3, half - 1.5 * dl),
+                       (-0.3, -half + 1.5 * dl), (half, half), (-half, -half), (0.0, 14.3), (0.5, -14.5), (13.0, 6.0), (0.0, 0.0)]
+                pts += [(rng.uniform(-2, 2), rng.choice([-1, 1]) * rng.uniform(half - 3 * dl, half)) for _ in range(4)]
             with open(tf, "w") as f:
                 for q, p in pts:
                     f.write("%r %r\n" % (q, p))
             h5 = os.path.join(td, "out.h5")
             cmd = ["timeout", "120", tg["inovesa"], "--gui", "false", "-s", str(n), "-T", "0.5", "-N", str(steps),
                    "-n", "2", "--tracking", tf, "--FPTrack", str(fptrack), "-o", h5, "-I", "1e-4"]
+            if mode != "std":
+                cmd += ["-P", repr(2 * half), "--derivation", str(3 + i % 2)]
             if (shx, shy) != (0.0, 0.0):
                 cmd += ["--PhaseSpaceShiftX", repr(shx), "--PhaseSpaceShiftY", repr(shy)]
             r = subprocess.run(cmd, capture_output=True, text=True, env=env, cwd=td)
-            case = dict(kind="program", n=n, fptrack=fptrack, steps=steps, particles=pts, shift_x=shx, shift_y=shy, cmd=" ".join(cmd[2:]))
+            case = dict(kind="program", mode=mode, n=n, fptrack=fptrack, steps=steps, particles=pts, shift_x=shx, shift_y=shy, cmd=" ".join(cmd[2:]))
             if not os.path.exists(h5):
                 # how a crash shows: no file or a signal
                 ctx.violation("impl-oracle", "inovesa did not produce a results file with tracking on (rc=%d)" % r.returncode, case=case,
@@ -232,7 +351,7 @@ def run_program(ctx, count):
                               observed=(r.stdout + r.stderr)[-600:] + d.stderr[-300:], sig=dict(kind="program", clause="ran", fptrack=fptrack))
                 continue
             num = lambda l: [v for v in l if not isinstance(v, str)]
-            lim = max([abs(v) for v in num(az) + num(ae)] + [Fraction(6)]) + Fraction(1, 1000)
+            lim = max([abs(v) for v in num(az) + num(ae)] + [Fraction(half)]) + Fraction(1, 1000)
             bad = [v for v in vals if isinstance(v, str) or abs(v) > lim]
             if bad:
                 ctx.violation("impl-oracle", "/Particles/data holds a coordinate outside the axes", case=case,
@@ -262,9 +381,92 @@ def run_program(ctx, count):
                                               case=case, observed=dict(particle=j, file_coordinate=c, recorded=float(rec), recorded_cell=idx, grid_coordinate=float(g)),
                                               expected="cell floor(grid coordinate)", sig=dict(kind="program", clause="first-record", fptrack=fptrack))
                                 break
-            ctx.case_done(("program", i, n, fptrack, shx, shy), True)
-            ctx.count("program:fptrack%d" % fptrack)
-            ctx.count("program:%s" % ("shifted" if (shx, shy) != (0.0, 0.0) else "unshifted"))
+            ctx.case_done(("program", mode, i, n, fptrack, shx, shy), True)
+            ctx.count("program:fptrack%d" % fptrack if mode == "std" else "program:fptrack2-underflowed-tails")
+            if mode == "std":
+                ctx.count("program:%s" % ("shifted" if (shx, shy) != (0.0, 0.0) else "unshifted"))
+
+
+def run_program_fp2(ctx, count):
+    run_program(ctx, count, mode="fp2")
+
+
+def run_program_rfmod(ctx, count):
+    """inovesa with RF phase modulation (or RF phase noise) and a tracked particle started on the centre of charge: main() calls
+    `rfm->apply()` then `rfm->applyToAll(trackme)`, so the particle must get the same step's kick as the grid.  With linear RF,
+    no wake and weak damping the maps are affine and the recorded track (/Particles/data: the mesh point below the particle)
+    must follow the recorded centre of charge (/BunchPosition, /EnergyAverage; same normalised units) within one cell."""
+    rng = ctx.rng
+    tg = ctx.build(harness=("impl_track", "h5cat"), want_binary=True)
+    env = vp_build.xdg_env()
+    for i in range(count):
+        n = rng.choice([48, 64])
+        N = 20
+        T = rng.choice([1.5, 2.0])
+        noise = i % 2 == 1
+        amp = rng.choice([0.5, 0.6, 0.8])
+        fmod = rng.choice([40000.0, 32000.0, 26667.0])
+        with tempfile.TemporaryDirectory(prefix="c15-") as td:
+            tf = os.path.join(td, "track.txt")
+            pts = [(0.0, 0.0), (1.0, -0.5), (-2.0, 1.5), (5.9, -5.9)]
+            with open(tf, "w") as f:
+                for q, p in pts:
+                    f.write("%r %r\n" % (q, p))
+            h5 = os.path.join(td, "out.h5")
+            cmd = ["timeout", "120", tg["inovesa"], "--gui", "false", "-s", str(n), "-N", str(N), "-T", repr(T), "-n", "1", "-f", "8000",
+                   "--LinearRF", "true", "-Z", "", "--UseCSR", "false", "-I", "1e-6", "--tracking", tf, "--FPTrack", str(i % 2),
+                   "-o", h5]
+            if noise:
+                cmd += ["--RFPhaseSpread", repr(2.5 * amp)]
+            else:
+                cmd += ["--RFPhaseModAmplitude", repr(amp), "--RFPhaseModFrequency", repr(fmod)]
+            r = subprocess.run(cmd, capture_output=True, text=True, env=env, cwd=td)
+            case = dict(kind="program-rfmod", n=n, steps_per_Ts=N, rotations=T, noise=noise, amplitude_deg=amp, fmod=fmod, particles=pts,
+                        cmd=" ".join(cmd[2:]))
+            if r.returncode != 0 or not os.path.exists(h5):
+                ctx.violation("impl-oracle", "inovesa failed with RF modulation and tracking (rc=%d)" % r.returncode, case=case,
+                              observed=(r.stdout + r.stderr)[-600:], sig=dict(kind="program-rfmod", clause="ran"))
+                continue
+            d = subprocess.run(["timeout", "60", tg["h5cat"], h5, "--values", "--only", "/Particles/data", "--only", "/Info/AxisValues_z",
+                                "--only", "/Info/AxisValues_E", "--only", "/BunchPosition/data", "--only", "/EnergyAverage/data",
+                                "--only", "/RFKicks/data"], capture_output=True, text=True)
+            tr = _h5vals(d.stdout)
+            az, ae = _h5vals(d.stdout, "/Info/AxisValues_z"), _h5vals(d.stdout, "/Info/AxisValues_E")
+            bq, be = _h5vals(d.stdout, "/BunchPosition/data"), _h5vals(d.stdout, "/EnergyAverage/data")
+            rfk = _h5vals(d.stdout, "/RFKicks/data")
+            nrec = len(bq)
+            if not tr or nrec < 5 or len(be) != nrec or len(tr) != 2 * len(pts) * nrec or len(az) != n or len(ae) != n or \
+                    any(isinstance(v, str) for v in tr + bq + be + az + ae):
+                ctx.violation("impl-oracle", "results file of the run with RF modulation and tracking is incomplete or not finite", case=case,
+                              observed=dict(track_values=len(tr), records=nrec), sig=dict(kind="program-rfmod", clause="data"))
+                continue
+            dq, de = (az[-1] - az[0]) / (n - 1), (ae[-1] - ae[0]) / (n - 1)
+            moved = Fraction(0)
+            ok = True
+            for j in range(nrec):
+                tq, te = tr[2 * len(pts) * j], tr[2 * len(pts) * j + 1]
+                if abs(bq[j]) > Fraction(7, 2) or abs(be[j]) > Fraction(7, 2):
+                    break          # the bunch gets close to the border of the grid: its centre of charge is no longer that of the whole bunch
+                if j + 1 < nrec:
+                    moved = max(moved, abs(be[j + 1] - be[j]) / de)     # the kick of one step, in cells
+                # the particle lies in [track, track + one cell); half a cell of slack for damping, interpolation and float
+                for nm, c, t, dl in (("position", bq[j], tq, dq), ("energy", be[j], te, de)):
+                    if not (-dl / 2 <= c - t <= dl * 3 / 2):
+                        kick = ""
+                        if len(rfk) >= 2 * (j + 1):
+                            kick = "; RF phases of steps %d and %d: %s, %s" % (j - 1, j, float(rfk[2 * (j - 1)]) if j >= 1 else None, float(rfk[2 * j]))
+                        ctx.violation("impl-oracle", "the track of the particle started on the centre of charge leaves the recorded centre of charge "
+                                      "under RF %s (%s, record %d)%s" % ("phase noise" if noise else "phase modulation", nm, j, kick), case=case,
+                                      observed=dict(record=j, track=float(t), centre_of_charge=float(c), cell=float(dl)),
+                                      expected="track <= centre of charge < track + one cell (half a cell of slack)",
+                                      sig=dict(kind="program-rfmod", clause="centroid", axis=nm))
+                        ok = False
+                        break
+                if not ok:
+                    break
+            ctx.extra.setdefault("program_rfmod_runs", []).append(dict(n=n, noise=noise, records=nrec, largest_energy_change_of_one_step_in_cells=float(moved)))
+            ctx.case_done(("program-rfmod", i, n, noise), moved >= 2)
+            ctx.count("program-rfmod:%s" % ("noise" if noise else "modulation"))
 
 
 def _h5vals(text, path="/Particles/data"):
@@ -285,7 +487,14 @@ def run(ctx, only_case=None):
                 "SourceMap::applyToAll; model evaluated from the implementation's state before each map: exact stream (dyadic inputs) bit "
                 "equality, tolerance stream K*2^-24*cond. Oracles on the implementation: inside-grid after every map, appendTracks lookup "
                 "defined, approximation1 drift = stencil first moment, blob centroid = particle, stochastic ensembles (mean, variance, 5 sigma). "
-                "Non-trivial: a particle moved / blob moved / drift row interior and off the zero bin.")
+                "Non-trivial: a particle moved / blob moved / drift row interior and off the zero bin. "
+                "Every track case is also compared with the model assembled from the code generated by translate/track2coq.py (gpos); tracking model 2 also on grids "
+                "with exact-zero rows and subnormal cells. dyntrack cases: DynamicRFKickMap (linear, phase modulation / phase + amplitude noise from the map's own "
+                "__calcModulation with a known seed) + DriftMap driven as main() does over 12-40 steps on n = 56|64, unit hat-blob on particle 0 renewed every 4|6 "
+                "steps: per step offsets and particles against the generated apply() over the queue model, oracle blob centroid = particle while the support is inside "
+                "(non-trivial: >= 8 evaluated maps). load cases: grid->x(q), grid->y(p) against the generated PhaseSpace::x/y. Program level: 4 runs over the four FPTrack "
+                "values, 2 runs FPTrack 2 on a +-20 sigma grid (underflowed tails, particles on the outermost rows), 2 runs with RF phase modulation / noise: track of the "
+                "particle started at (0,0) within [-1/2, 3/2] cells of /BunchPosition, /EnergyAverage (non-trivial: a step changes the mean energy by >= 2 cells).")
     coq = vp_coq.full_check("C15", ctx, fams=("track",))
     q = ctx.quick()
     dis = []
@@ -310,8 +519,12 @@ def run(ctx, only_case=None):
         ctx.evaluations += 1
         oracle_blob(ctx, b, bres[b.cid])
     ctx.sample(blobs[0].replay())
+    run_dyn_stage(ctx, 8 if q else 60, dis)
+    run_load_stage(ctx, 20 if q else 200, dis)
     run_ensembles(ctx, 6 if q else 16, 4000 if q else 20000, 400 if q else 1200)
     run_program(ctx, 4 if q else 12)
+    run_program_fp2(ctx, 2 if q else 8)
+    run_program_rfmod(ctx, 2 if q else 10)
     ctx.extra["correspondence_disagreements"] = len(dis)
     ctx.assumptions += ["exact-arithmetic model; rounding handled by the exact/tolerance streams (DESIGN 3); the clamp is exact in float, so the "
                         "inside-grid theorem transfers to the float code whatever the rounding of the unclamped value",
@@ -336,5 +549,13 @@ def replay(ctx, rp):
         b = tc.blob_from_replay(case)
         r = tc.run_blobs(ctx, [b])
         oracle_blob(ctx, b, r[b.cid])
+    elif case.get("kind") == "dyn":
+        c = tc.dyn_from_replay(case)
+        r = tc.run_dyn(ctx, [c])
+        oracle_dyn(ctx, c, r[c.cid])
+        d = tc.compare_dyn(c, r[c.cid])
+        if d and not ctx.violations:
+            ctx.violation("correspondence", "model and implementation disagree on the replayed case", case=case, observed=d[:3],
+                          sig=dict(kind="dyn", stage="correspondence"), no_input=True)
     else:
         run(ctx)
